@@ -1,5 +1,5 @@
 (* C13 proofs. *)
-From MJ Require Import Common.Base C13.Model C13.Spec.
+From MJ Require Import Common.Base C13.GenFuelTable C13.Model C13.Spec.
 
 Ltac brk :=
   repeat match goal with
@@ -292,6 +292,39 @@ Proof.
   destruct (watch_track_proof (concat streams) B HB Hc) as (pre & W). cbn zeta in W. rewrite W. cbn [snd].
   rewrite total_concat. reflexivity.
 Qed.
+
+(* ---- the real cost function ---- *)
+Lemma fuel_table_nonneg : forallb (fun e => 0 <=? snd e) fuel_table = true.
+Proof. vm_compute. reflexivity. Qed.
+
+Lemma lookup_cost_nonneg op : forall t c, forallb (fun e => 0 <=? snd e) t = true -> lookup_cost op t = Some c -> 0 <= c.
+Proof.
+  induction t as [|[o c0] t IH]; intros c H L; cbn [lookup_cost forallb snd] in *; [discriminate|].
+  apply andb_prop in H as [H1 H2]. destruct (o =? op); [inversion L; subst; lia|exact (IH c H2 L)].
+Qed.
+
+Lemma stream_costs_nonneg : forall ops costs, stream_costs ops = Some costs -> Forall nonneg costs.
+Proof.
+  induction ops as [|op ops IH]; intros costs H; cbn [stream_costs] in H.
+  - inversion H; constructor.
+  - destruct (cost_of op) as [c|] eqn:C; [|discriminate].
+    destruct (stream_costs ops) as [cs|]; [|discriminate]. inversion H; subst.
+    constructor; [exact (lookup_cost_nonneg op fuel_table c fuel_table_nonneg C)|apply IH; reflexivity].
+Qed.
+
+Lemma stream_costs_length : forall ops costs, stream_costs ops = Some costs -> length costs = length ops.
+Proof.
+  induction ops as [|op ops IH]; intros costs H; cbn [stream_costs] in H.
+  - inversion H; reflexivity.
+  - destruct (cost_of op); [|discriminate]. destruct (stream_costs ops) as [cs|]; [|discriminate].
+    inversion H; subst. cbn [length]. f_equal. apply IH. reflexivity.
+Qed.
+
+Lemma trace_threshold_proof : forall ops costs B, stream_costs ops = Some costs -> 0 <= B ->
+  let c := total costs in
+  exists pre, watch track (new B) costs =
+    (pre, mk_tracker B (if threshold c <=? B then B - c else 0), threshold c <=? B).
+Proof. intros ops costs B H HB. exact (watch_track_proof costs B HB (stream_costs_nonneg ops costs H)). Qed.
 
 (* ---- what the check found in the code before the fix (isize counter) ---- *)
 Example threshold_refuted_before_fix :
